@@ -14,6 +14,10 @@ type Layout struct {
 	Comments bool
 	sb       strings.Builder
 	ln, cl   int
+	// Long > 0: one full-line comment of that many characters is written at the first line break after the header
+	// (lines longer than the 64 KiB default buffers of line readers)
+	Long     int
+	longDone bool
 	// positions
 	Pos map[string][2]int // key -> line, col (0-based) of name occurrences
 }
@@ -101,6 +105,11 @@ func (l *Layout) eol() {
 // newline(s) followed by indentation for a code line
 func (l *Layout) nl(indent string) {
 	l.eol()
+	if l.Long > 0 && !l.longDone && l.ln >= 1 {
+		l.longDone = true
+		l.w("# " + strings.Repeat("x", l.Long))
+		l.eolBare()
+	}
 	if l.Small {
 		switch l.pick(3) {
 		case 1:
